@@ -50,3 +50,19 @@ prop(
                  "the scripted random source stands for math/rand.Intn (panics on n<=0, any non-negative return value)",
                  "extraction (ExtrOcamlBasic) and ocaml/driver.ml; Go harness and overlay build"],
 )
+
+
+prop(
+    id="C10",
+    stages=[dict(name="c10", pkg="c10", test="TestC10", access=[], timeout_quick=240, timeout_thorough=2400),
+            dict(name="f64", pkg="c10", test="TestF64", access=[], timeout_quick=240, timeout_thorough=2400)],
+    ok_pred={"staged": "staged_ok", "ramp": "ramp_ok"},
+    rule="CalculateStagedRate / CalculateRampRate (distribution none, jitter 0) on synthetic non-decreasing timestamps: 1-8 stages, "
+         "durations 0 (zero-length), 1ns..hours, targets up and down to 1e6, given or default start, 5-60 query times incl. every stage boundary +-1ns "
+         "and far beyond the end; ramps up/down over 1s..1000s; stage f64: Go float64 primitives vs the Flocq model on random bit patterns; "
+         "non-trivial = staged profile with >= 2 stages / any ramp / any f64 primitive case; distinct = distinct argument tuples",
+    assumptions=["float64 arithmetic of Go on amd64 = IEEE-754 binary64 round-to-nearest-even (Flocq BinarySingleNaN), checked per primitive by stage f64",
+                 "int(f) for NaN/out-of-range = -2^63 (amd64)",
+                 "times within int64 nanoseconds; time.Time.Sub does not saturate in the generated range",
+                 "shape facts of the binary64 interpolation term (interp_facts) are hypotheses of the *_partial theorems; they are checked on the implementation's outputs by the predicate interp_ok"],
+)
